@@ -45,7 +45,8 @@ def run(tier, seed):
     runs = []
     for k in range(n):
         runs += [dict(W=2, pp=1, execs=8, ops=40, perturb=2), dict(W=3, pp=1, execs=8, ops=40, perturb=3, nt=4),
-                 dict(W=0, pp=1, execs=8, ops=40, perturb=2, nt=4), dict(W=2, pp=1, susp=1, execs=6, ops=30, perturb=2)]
+                 dict(W=0, pp=1, execs=8, ops=40, perturb=2, nt=4), dict(W=2, pp=1, susp=1, execs=6, ops=30, perturb=2),
+                 dict(W=3, pp=0, susp=1, execs=6, ops=30, perturb=2, nt=4)]
     drive(v, PROP, seed, runs, tier)
     steer_f1(v, PROP)
     apply_on_queue(v, seed, tier)
